@@ -43,6 +43,7 @@ type World struct {
 	pools     map[string]string
 	poolPkg   map[string]string
 	poolInv   map[string]Clause // pool invariants over `it`
+	unbound   map[string]*Contract // contracts whose function does not exist
 	contractFiles []string
 	staleClauses []string
 }
